@@ -151,7 +151,17 @@ func (m *Module) liftCell(fn *ssa.Function, cell *ssa.Alloc) {
 					}
 				}
 			case ssa.CallInstruction:
-				if _, isDefer := ins.(*ssa.Defer); !isDefer && (kills == nil || kills[ins]) {
+				kill := kills == nil || kills[ins]
+				if !kill && ins.Parent() != fn {
+					// inside a function literal: a call through a function value could
+					// run another literal that shares the variable
+					if x.Common().IsInvoke() || x.Common().StaticCallee() == nil {
+						if _, isBuiltin := x.Common().Value.(*ssa.Builtin); !isBuiltin {
+							kill = true
+						}
+					}
+				}
+				if _, isDefer := ins.(*ssa.Defer); !isDefer && kill {
 					cur = cellDef{kind: 2}
 				}
 			case *ssa.RunDefers:
@@ -197,22 +207,53 @@ func (m *Module) liftCell(fn *ssa.Function, cell *ssa.Alloc) {
 			}
 		}
 	}
-	if len(rds) == 1 {
-		stopAt = rds[0]
-		atRD := transfer(rds[0].Block(), in[rds[0].Block()], nil)
-		stopAt = nil
+	if len(rds) >= 1 {
+		blockReach := func(from *ssa.BasicBlock) map[*ssa.BasicBlock]bool {
+			seen := map[*ssa.BasicBlock]bool{from: true}
+			work := []*ssa.BasicBlock{from}
+			for len(work) > 0 {
+				b := work[len(work)-1]
+				work = work[:len(work)-1]
+				for _, sb := range b.Succs {
+					if !seen[sb] {
+						seen[sb] = true
+						work = append(work, sb)
+					}
+				}
+			}
+			return seen
+		}
 		ncl := 0
-		for cl, d := range m.deferSite {
+		for _, d := range m.deferSite {
 			if d.Parent() == fn {
 				ncl++
 			}
-			_ = cl
 		}
 		for cl, d := range m.deferSite {
 			if d.Parent() != fn || ncl != 1 {
 				continue // several deferred literals: the later ones see the earlier ones' writes
 			}
-			if o, ok := solve(cl, atRD); ok {
+			// the value at the exits that the registration can reach
+			after := blockReach(d.Block())
+			var at cellDef
+			okAll, n := true, 0
+			for _, rd := range rds {
+				if !after[rd.Block()] {
+					continue
+				}
+				stopAt = rd
+				st := transfer(rd.Block(), in[rd.Block()], nil)
+				stopAt = nil
+				if n > 0 && !same(at, st) {
+					okAll = false
+				}
+				at = st
+				n++
+			}
+			if !okAll || n == 0 {
+				continue
+			}
+			if o, ok := solve(cl, at); ok {
 				order = append(order, o...)
 			}
 		}
@@ -221,6 +262,28 @@ func (m *Module) liftCell(fn *ssa.Function, cell *ssa.Alloc) {
 	for _, cl := range m.abortFlagWalkers(fn, cell) {
 		if o, ok := solve(cl, cellDef{kind: 1, v: zeroOf(elem)}); ok {
 			order = append(order, o...)
+		}
+	}
+	// every other function literal that shares the variable: what it stores is what
+	// it reads afterwards (the value at its entry is not known)
+	solved := map[*ssa.Function]bool{}
+	for _, b := range order {
+		solved[b.Parent()] = true
+	}
+	if refs := cell.Referrers(); refs != nil {
+		for _, r := range *refs {
+			mc, ok := r.(*ssa.MakeClosure)
+			if !ok {
+				continue
+			}
+			cl, ok := mc.Fn.(*ssa.Function)
+			if !ok || solved[cl] || len(cl.Blocks) == 0 || cl.Recover != nil {
+				continue
+			}
+			solved[cl] = true
+			if o, ok := solve(cl, cellDef{kind: 2}); ok {
+				order = append(order, o...)
+			}
 		}
 	}
 	// materialise the phis that loads need
@@ -639,6 +702,10 @@ func (m *Module) abortFlagWalkers(fn *ssa.Function, cell *ssa.Alloc) (res []*ssa
 	}
 	callee := m.callee(call.Common())
 	if callee == nil || len(callee.Blocks) == 0 {
+		return nil
+	}
+	// (handed out once per variable: not in a loop that the variable outlives)
+	if _, body := loopOf(call.Block()); body != nil && !body[cell.Block()] {
 		return nil
 	}
 	idx := -1
